@@ -170,4 +170,22 @@ theorem parseLoop_total (w : World) (sep : UInt8) (fuel : Nat) : ∀ (rest : Byt
 theorem parseStr_total (w : World) (sep : UInt8) (str : Bytes) : ∃ t, parseStr w sep str = .ok t :=
   parseLoop_total w sep (str.length + 1) str none [] (by simp)
 
+/-- `qconfig_parse_file` returns a table or NULL for every file system, path and content: the
+    include loop is a structural recursion on the `_MAX_INCLUDES` budget (every round that does not
+    end the loop consumes one unit) and cannot fault -/
+theorem parseFile_total (w : World) (fs : Bytes → Option Bytes) (sep : UInt8) (path : Bytes) :
+    ∃ r, parseFile w fs sep path = .ok r := by
+  unfold parseFile
+  cases fs path with
+  | none => exact ⟨_, rfl⟩
+  | some data =>
+    simp only []
+    cases includeLoop fs (dirname path) maxIncludes [] (data.takeWhile (· != 0)) with
+    | none => exact ⟨_, rfl⟩
+    | some str =>
+      simp only []
+      obtain ⟨t, h⟩ := parseStr_total w sep str
+      rw [h]
+      exact ⟨_, rfl⟩
+
 end Qlibc.Conf.Ini
